@@ -340,12 +340,12 @@ Proof.
   - rewrite skey_reg. unfold set_env. cbn [st_env]. apply env_get_set_other. apply kbc_not_reg. unfold reg_ok in Hd. lia.
 Qed.
 
-Lemma clz_loop : forall (n : nat) c f st, Z.of_nat (Datatypes.S n) = 32 - c -> (2 * Datatypes.S n + 1 <= f)%nat ->
+Lemma clz_loop : forall (n : nat) c f st, 0 <= c -> Z.of_nat (Datatypes.S n) = 32 - c -> (2 * Datatypes.S n + 1 <= f)%nat ->
   emb s st -> env_get (st_env st) (count, None) = Some (mkc 32 c) -> y < 2 ^ (32 - c) ->
   exists st', run_cfg f G 1 st = Fin st' /\ emb (setr s rd (clz32 y)) st' /\
               env_get (st_env st') kbc = env_get (st_env st) kbc.
 Proof.
-  induction n as [|n IH]; intros c f st Hn Hf He Hc Hy;
+  induction n as [|n IH]; intros c f st Hc0 Hn Hf He Hc Hy;
     (assert (Rc : 0 <= c <= 31) by lia);
     (destruct f as [|f]; [lia|]); pose proof y_range as Ry;
     erewrite run_cfg_step by reflexivity;
@@ -373,8 +373,8 @@ Proof.
     destruct f as [|f]; [lia|].
     destruct (clz_exit f st2 32 He2 Hc2) as (st' & Hr & Hemb & Hfr).
     exists st'. split; [exact Hr|]. split.
-    + assert (y = 0) by (pose proof (clz_continue y 31 ltac:(lia) ltac:(lia) B); change (2 ^ (31 - 31)) with 1 in *; lia).
-      replace (clz32 y) with 32 by (subst; reflexivity). exact Hemb.
+    + assert (Hy0 : y = 0) by (pose proof (clz_continue y 31 ltac:(lia) ltac:(lia) B) as Hlt; change (2 ^ (31 - 31)) with 1 in Hlt; lia).
+      rewrite Hy0. exact Hemb.
     + rewrite Hfr. unfold st2. apply frame_tmp. assumption.
   - (* bit 1: found *)
     destruct f as [|f]; [lia|].
@@ -395,9 +395,9 @@ Proof.
     change (out_edges G 2) with [edge_c 2 1 (EBin Cmpneq cnt (expr_const 32 32)); edge_c 2 3 (EBin Cmpeq cnt (expr_const 32 32))].
     cbn [enabled_edges e_cond edge_c guard_on].
     erewrite !den_bin; [|apply den_cnt; exact Hc2|rewrite den_const, new_big_32; reflexivity|apply den_cnt; exact Hc2|rewrite den_const, new_big_32; reflexivity].
-    cbn [sp_bin bind cbits cval negb s_cmpeq s_cmpneq]. change (32 mod 2 ^ 32) with 32.
-    destruct (Z.eqb_spec (c + 1) 32) as [E32|N32]; [lia|]. cbn [Z.eqb Pos.eqb e_tail edge_c].
-    destruct (IH (c + 1) f st2 ltac:(lia) ltac:(lia) He2 Hc2) as (st' & Hr & Hemb & Hfr).
+    cbn [sp_bin]. unfold s_cmpeq, s_cmpneq. change (32 mod 2 ^ 32) with 32.
+    destruct (Z.eqb_spec (c + 1) 32) as [E32|N32]; [lia|]. cbn [bind cbits cval negb Z.eqb Pos.eqb e_tail edge_c].
+    destruct (IH (c + 1) f st2 ltac:(lia) ltac:(lia) ltac:(lia) He2 Hc2) as (st' & Hr & Hemb & Hfr).
     { replace (32 - (c + 1)) with (31 - c) by lia. apply (clz_continue y c Rc ltac:(lia) B). }
     exists st'. split; [exact Hr|]. split; [exact Hemb|]. rewrite Hfr. unfold st2. apply frame_tmp. assumption.
   - (* bit 1: found *)
@@ -419,6 +419,7 @@ Proof.
   change (out_edges G 0) with [edge_u 0 1]. cbn [enabled_edges e_cond edge_u guard_on bind e_tail].
   set (st1 := set_env st (count, None) (mkc 32 0)).
   destruct (clz_loop 31 0 199 st1) as (st' & Hr & Hemb & Hfr).
+  - lia.
   - reflexivity.
   - lia.
   - apply emb_set_other; assumption.
@@ -427,3 +428,37 @@ Proof.
   - exists st'. split; [exact Hr|]. split; [exact Hemb|]. rewrite Hfr. unfold st1. apply frame_tmp. assumption.
 Qed.
 End ClzLoop.
+
+Lemma b_clzo_ok ad ones_ count rd rs :
+  exists g, b_clzo ad ones_ count rd rs = Ok g /\
+  g = mkcfg [blk 0 ad [OAssign (tmp count 32) (expr_const 0 32)]; blk 1 ad [];
+             blk 2 ad [OAssign (tmp count 32) (EBin Add (EScalar (tmp count 32)) (expr_const 1 32))];
+             blk 3 ad [OAssign (reg_scalar rd) (EScalar (tmp count 32))]]
+        [edge_u 0 1;
+         edge_c 1 2 (if ones_ then EExt Trun 1 (EBin Shr (reg_expr rs) (EBin Sub (expr_const 31 32) (EScalar (tmp count 32))))
+                     else EBin Cmpeq (EExt Trun 1 (EBin Shr (reg_expr rs) (EBin Sub (expr_const 31 32) (EScalar (tmp count 32))))) c0_1);
+         edge_c 1 3 (if ones_ then EBin Cmpeq (EExt Trun 1 (EBin Shr (reg_expr rs) (EBin Sub (expr_const 31 32) (EScalar (tmp count 32))))) c0_1
+                     else EExt Trun 1 (EBin Shr (reg_expr rs) (EBin Sub (expr_const 31 32) (EScalar (tmp count 32)))));
+         edge_c 2 1 (EBin Cmpneq (EScalar (tmp count 32)) (expr_const 32 32));
+         edge_c 2 3 (EBin Cmpeq (EScalar (tmp count 32)) (expr_const 32 32))] 4 (Some 0) (Some 3).
+Proof.
+  unfold b_clzo, not1. rewrite mk_bin_ok by reflexivity. cbn [bind]. rewrite mk_bin_ok by reflexivity. cbn [bind].
+  rewrite mk_bin_ok by (rewrite e_bits_reg; reflexivity). cbn [bind].
+  unfold mk_ext. cbn [e_bits is_cmp]. rewrite e_bits_reg. cbn [Z.leb Z.eqb Z.compare Pos.compare Pos.compare_cont orb bind].
+  rewrite mk_bin_ok by reflexivity. cbn [bind]. rewrite !mk_bin_ok by reflexivity. cbn [bind].
+  eexists. split; reflexivity.
+Qed.
+
+Theorem clzo_correct bg rd rs : reg_ok rd -> reg_ok rs ->
+  plain_correct bg (MClz rd rs) /\ plain_correct bg (MClo rd rs).
+Proof.
+  intros Hd Hs. split; intros a ts s st Hw Hb He Hts Hacc Htd;
+    pose proof (tmp_not_arch ts 0 Hts) as Ta; pose proof (tmp_not_kbc ts 0 Hts) as Tk;
+    cbn [lift_plain exec1].
+  - destruct (b_clzo_ok (Some a) false (nthN ts 0) rd rs) as (g & Eg & ->). rewrite Eg.
+    destruct (clz_graph false (Some a) (nthN ts 0) rd rs s Hw Hd Hs Ta Tk st He) as (st' & Hr & Hemb & Hfr).
+    unfold ok, post. exists st'. split; [exact Hr|]. split; [apply emb_emb_u; exact Hemb|exact Hfr].
+  - destruct (b_clzo_ok (Some a) true (nthN ts 0) rd rs) as (g & Eg & ->). rewrite Eg.
+    destruct (clz_graph true (Some a) (nthN ts 0) rd rs s Hw Hd Hs Ta Tk st He) as (st' & Hr & Hemb & Hfr).
+    unfold ok, post. exists st'. split; [exact Hr|]. split; [apply emb_emb_u; exact Hemb|exact Hfr].
+Qed.
